@@ -401,7 +401,9 @@ def explore_shard(acc, shard):
         spellings = display_spellings(seed)
         tokens_of = dict(spellings)
         bpms_lists = ["0.000=120.000", "0.000=120.000,\n4.000=60.000", "0.000=90.000,\n4.000=180.000,\n8.000=135.5", "0.000=200,\n1.000=100,\n2.000=300",
-                      "0.000=150,\n16.000=150.000", "0.000=75,\n4.000=75,\n8.000=75.0", "0.000=100,\n0.000=200,\n8.000=150"]
+                      "0.000=150,\n16.000=150.000", "0.000=75,\n4.000=75,\n8.000=75.0", "0.000=100,\n0.000=200,\n8.000=150",
+                      # magnitudes: a BPM beyond 100000 next to an ordinary one, the ends of the usual range, many digits
+                      "0.000=120.000,\n4.000=100000.001", "0.000=1,\n4.000=2000,\n8.000=0.001", "0.000=133.33333333333333333333333333,\n4.000=133.33333333333333333333333334"]
         vecs = [v for v in vectors(1)] if chartkind == "ssc" else [tuple([0] * len(PROPS))]
         states3 = ("absent", "empty", "value")
         case = None
@@ -411,7 +413,7 @@ def explore_shard(acc, shard):
                 ch_off = {"absent": None, "empty": "", "value": "0.222"}[coff]
                 # DISPLAYBPM: absent / empty / each spelling, on the side that is the source; the other side carries a decoy
                 for bi, bl in enumerate(bpms_lists):
-                    for dtext in [None, ""] + (list(spellings) + ["140:140.0", "99:99"] if (bi == 0 and soff == "value" and coff == "value") else ["150", "100:200", "*", "abc", "140:140.0"]):
+                    for dtext in [None, ""] + (list(spellings) + ["140:140.0", "99:99"] if (bi == 0 and soff == "value" and coff == "value") else ["150", "100:200", "*", "abc", "140:140.0", "150.00000000000000000000000001", "10000000000000000000000000000:10000000000000000000000000001"]):
                         for decoy in ("77", None):
                             sim_extra = {"OFFSET": sim_off, "BPMS": bl, "DISPLAYBPM": dtext}
                             chart_extra = {"OFFSET": ch_off, "DISPLAYBPM": decoy}
